@@ -149,6 +149,21 @@ crypt_sha1crypt_rn (const char *phrase, size_t phr_size,
 
   sl = (size_t)(sp - setting);
 
+  /* The size check at the top assumes a salt of at most
+     CRYPT_SHA1_SALT_LENGTH characters, but longer ones have always
+     been accepted.  Make sure "$sha1$<iterations>$<salt>$<digest>"
+     really fits: snprintf below would truncate, and its return value
+     - the length it *wanted* to write - is used to feed the HMAC and
+     to place the digest, far beyond OUTPUT.  */
+  size_t il = 1;
+  for (ul = iterations; ul >= 10; ul /= 10)
+    il++;
+  if (out_size < strlen (magic) + il + 1 + sl + 1 + SHA1_OUTPUT_SIZE + 1)
+    {
+      errno = ERANGE;
+      return;
+    }
+
   /*
    * Now get to work...
    * Prime the pump with <salt><magic><iterations>
